@@ -80,6 +80,17 @@ Section FutProofs.
           - unfold c19_buf_after_move. unfold c19_move_ok in Hm. destruct k; try reflexivity; rewrite Hm; reflexivity.
           - inversion Hm as [|? ? Hne _]; subst. exfalso. apply Hne. reflexivity. }
         rewrite Hold. cbn [negb andb]. apply IH; [|exact Hmv']. split; [exact Hv|exact Hst].
+      + (* move assignment into a default-constructed future: swap, the source is invalid afterwards *)
+        cbn [app c19_spec_accept negb andb]. apply IH; [|exact Hmv']. split; [exact Hv|exact Hst].
+      + (* get_send_data: behaves like wait *)
+        unfold c19_fvalid, c19_pending, c19_mpi_wait, c19_complete. cbn [c19_buf c19_rq].
+        destruct taken.
+        * destruct buf; [discriminate|]. cbn [app c19_spec_accept andb]. apply IH; [|exact Hmv']. split; [reflexivity|discriminate].
+        * specialize (Hst eq_refl). destruct buf as [d|]; [|discriminate].
+          destruct rq as [|[|]]; cbn [app c19_spec_accept option_map c19_buf].
+          -- destruct Hst as (-> & Hb). cbn [andb]. apply IH; [|exact Hmv']. split; [reflexivity|]. intros _. split; [reflexivity|exact Hb].
+          -- destruct Hst as (-> & Hb). cbn [andb]. apply IH; [|exact Hmv']. split; [reflexivity|]. intros _. split; [reflexivity|exact Hb].
+          -- cbn [andb]. apply IH; [|exact Hmv']. split; [reflexivity|]. intros _. split; reflexivity.
     - (* completion in the network *)
       cbn [c19_ftrace]. unfold c19_pending, c19_complete. cbn [c19_rq c19_buf].
       destruct rq as [|[|]]; cbn [app c19_spec_accept].
@@ -106,7 +117,7 @@ Section FutProofs.
       + apply andb_true_iff in H. destruct H as (Hr & H). destruct r; try discriminate. cbn [c19_count_data c19_all_data_is]. exact (IH _ _ _ H).
       + destruct taken.
         * apply andb_true_iff in H. destruct H as (Hr & H). destruct r; try discriminate; cbn [c19_count_data c19_all_data_is]; exact (IH _ _ _ H).
-        * destruct r as [[|]| |d|]; try discriminate; apply andb_true_iff in H; destruct H as (_ & H);
+        * destruct r as [[|]| |d| |]; try discriminate; apply andb_true_iff in H; destruct H as (_ & H);
             cbn [c19_count_data c19_all_data_is]; exact (IH _ _ _ H).
       + destruct taken; apply andb_true_iff in H; destruct H as (Hr & H); destruct r; try discriminate;
           cbn [c19_count_data c19_all_data_is]; exact (IH _ _ _ H).
@@ -115,17 +126,21 @@ Section FutProofs.
         * apply andb_true_iff in Hr. destruct Hr as (_ & Hd). cbn [c19_count_data c19_all_data_is]. rewrite Hd.
           destruct (IH _ _ _ H) as (Hc & Ha). cbn [andb]. split; [lia|exact Ha].
       + apply andb_true_iff in H. destruct H as (Hr & H). destruct r; try discriminate. cbn [c19_count_data c19_all_data_is]. exact (IH _ _ _ H).
+      + apply andb_true_iff in H. destruct H as (Hr & H). destruct r; try discriminate. cbn [c19_count_data c19_all_data_is]. exact (IH _ _ _ H).
+      + destruct taken; apply andb_true_iff in H; destruct H as (Hr & H); destruct r; try discriminate;
+          cbn [c19_count_data c19_all_data_is]; exact (IH _ _ _ H).
     - cbn [c19_spec_accept] in H. cbn [c19_count_data c19_all_data_is]. exact (IH _ _ _ H).
   Qed.
 
   (* PseudoFuture *)
   Lemma accept_ptrace : forall ops f known,
-    c19_pdata f = v -> Forall (fun o => o <> C19_Move) ops ->
+    c19_pdata f = v -> Forall (fun o => In o [C19_Valid; C19_Ready; C19_Wait; C19_Get]) ops ->
     c19_spec_accept deqb v (negb (c19_pvalid f)) true known (c19_ptrace ops f) = true.
   Proof.
     induction ops as [|o ops IH]; intros [pv pd] known Hd Hm; [reflexivity|].
     cbn [c19_pdata] in Hd. subst pd. inversion Hm as [|? ? Hne Hm']; subst.
-    destruct o; cbn [c19_ptrace c19_pstep c19_pvalid c19_pdata]; try (exfalso; apply Hne; reflexivity).
+    destruct o; cbn [c19_ptrace c19_pstep c19_pvalid c19_pdata];
+      try (exfalso; cbn in Hne; repeat (destruct Hne as [Hne|Hne]; [discriminate|]); exact Hne).
     - cbn [c19_spec_accept]. rewrite negb_involutive, eqb_reflx. cbn [andb]. apply (IH (C19_mkpfut pv v)); [reflexivity|exact Hm'].
     - destruct pv; cbn [negb c19_spec_accept andb].
       + apply (IH (C19_mkpfut true v)); [reflexivity|exact Hm'].
@@ -196,7 +211,7 @@ Lemma P_future_move_refuted : forall k, k <> C19_BValue ->
 Proof. intros [| |] H; try congruence; vm_compute; reflexivity. Qed.
 
 Lemma P_pseudofuture : forall (D : Type) (deqb : D -> D -> bool), (forall d, deqb d d = true) ->
-  forall (v : D) (valid0 : bool) (ops : list c19_fop), Forall (fun o => o <> C19_Move) ops ->
+  forall (v : D) (valid0 : bool) (ops : list c19_fop), Forall (fun o => In o [C19_Valid; C19_Ready; C19_Wait; C19_Get]) ops ->
   let tr := c19_ptrace ops (C19_mkpfut valid0 v) in
   c19_spec_accept deqb v (negb valid0) true false tr = true /\
   c19_count_data tr <= (if valid0 then 1 else 0) /\ c19_all_data_is deqb v tr = true.
@@ -211,6 +226,21 @@ Qed.
 Lemma P_pseudofuture_move_refuted :
   c19_spec_accept Nat.eqb 7 false true false (c19_ptrace [C19_Move] (C19_mkpfut true 7)) = false.
 Proof. vm_compute. reflexivity. Qed.
+
+(* MPIFuture<T>(true): a valid future without request behaves like a completed one *)
+Lemma P_future_prevalid : forall (D : Type) (deqb : D -> D -> bool), (forall d, deqb d d = true) ->
+  forall (k : c19_bkind) (v : D) (h : list c19_fev), c19_no_move h ->
+  c19_spec_accept deqb v false true false (c19_ftrace c19_cfg_fixed k v h (c19_fut_prevalid v)) = true.
+Proof.
+  intros D deqb Hr k v h Hm. apply accept_trace; [exact Hr|destruct k; reflexivity| |right; exact Hm].
+  split; [reflexivity|]. intros _. split; reflexivity.
+Qed.
+
+(* move assignment (swap with a default-constructed future) leaves the source invalid for EVERY buffer kind, any cfg *)
+Lemma P_future_move_assign : forall (D : Type) (cfg : c19_cfg) (k : c19_bkind) (v : D) (f : c19_fut D),
+  fst (c19_fstep cfg k v C19_MoveAssign f) = [C19_TOp C19_MoveAssign (C19_RBool false)] /\
+  snd (c19_fstep cfg k v C19_MoveAssign f) = f.
+Proof. intros. split; reflexivity. Qed.
 
 (* non-vacuity: a history in which every kind of event occurs, with its trace *)
 Lemma P_example_future :
